@@ -25,7 +25,7 @@ def jGraph (g : G) : Json :=
   jObj [("nodes", jList (fun (n : GNode) => jObj [("label", jInt n.label), ("preds", jInts n.preds), ("succs", jInts n.succs),
             ("desc", jInts (descendants g n.label)), ("anc", jInts (ancestors g n.label))]) g),
         ("edges", jList (fun (e : Int × Int) => Json.arr #[jInt e.1, jInt e.2]) (edges g)),
-        ("sources", jInts (sources g)), ("sinks", jInts (sinks g))]
+        ("sources", jInts (sources g)), ("sinks", jInts (sinks g)), ("cyc", jBool (hasCycle g))]
 
 /-- `{"fn":"graphops","ops":[…]}` → the structure after every operation (and whether the op was accepted). -/
 def graphops : Handler := fun j => do
